@@ -479,10 +479,19 @@ func c37AppMode(rt *rapid.T, s *c37State, pool []string) {
 				}
 			}
 			m := s.genMsg(rt, h, pool, soon, func() (int64, bool) {
-				if s.height >= h {
+				// a new version is announced for a height after the stored one: at or before the current block, or (what a
+				// real upgrade announcement looks like) a few blocks ahead - the restart at the end then happens BEFORE it
+				// (only one announcement may be pending: a second one would make the height of the first - still in the
+				// future - the chain's codec-upgrade height and throw the running chain back onto its pre-upgrade code paths)
+				if s.height > h {
 					return 0, false
 				}
-				return s.height + 1 + int64(rapid.Int64Range(0, h-s.height-1).Draw(rt, "vh")), true
+				lo := s.height + 1
+				vh := lo + rapid.Int64Range(0, h+6-lo).Draw(rt, "vh")
+				if vh > h {
+					c.Label("version-upgrade-announced-for-a-future-height")
+				}
+				return vh, true
 			})
 			c.Opf("h%d %s", h, m.desc)
 			s.labelMsg(m)
